@@ -128,7 +128,10 @@ void RescaledHmmLikelihood::computeForward_()
   }
   for (size_t j = 0; j < nbStates_; j++)
   {
-    likelihood_[j] = tmp[j] / scales_[0];
+    if (scales_[0] > 0)
+      likelihood_[j] = tmp[j] / scales_[0];
+    else
+      likelihood_[j] = 0;
   }
   lScales[0] = log(scales_[0]);
 
